@@ -33,6 +33,12 @@ typedef struct {
 	sqfs_data_reader_t *data;
 	sqfs_dir_reader_t *rd;
 	sqfs_id_table_t *id;
+
+	/* inode references of the directories entered on the way from the
+	   directory the outermost iterator was created for, down to the
+	   one this iterator reads (used to detect directory loops) */
+	sqfs_u64 *parents;
+	size_t num_parents;
 } iterator_t;
 
 static int it_next(sqfs_dir_iterator_t *base, sqfs_dir_entry_t **out)
@@ -102,7 +108,9 @@ static int it_read_link(sqfs_dir_iterator_t *base, char **out)
 
 static int it_open_subdir(sqfs_dir_iterator_t *base, sqfs_dir_iterator_t **out)
 {
-	iterator_t *it = (iterator_t *)base;
+	iterator_t *it = (iterator_t *)base, *sub;
+	size_t i;
+	int ret;
 
 	*out = NULL;
 
@@ -114,8 +122,31 @@ static int it_open_subdir(sqfs_dir_iterator_t *base, sqfs_dir_iterator_t **out)
 		return SQFS_ERROR_NOT_DIR;
 	}
 
-	return sqfs_dir_iterator_create(it->rd, it->id, it->data, it->xattr,
-					it->inode, out);
+	/* a directory that is its own ancestor would never stop recursing */
+	for (i = 0; i < it->num_parents; ++i) {
+		if (it->parents[i] == it->state.ent_ref)
+			return SQFS_ERROR_LINK_LOOP;
+	}
+
+	ret = sqfs_dir_iterator_create(it->rd, it->id, it->data, it->xattr,
+				       it->inode, out);
+	if (ret)
+		return ret;
+
+	sub = (iterator_t *)*out;
+	sub->parents = alloc_array(sizeof(sub->parents[0]),
+				   it->num_parents + 1);
+	if (sub->parents == NULL) {
+		*out = sqfs_drop(*out);
+		return SQFS_ERROR_ALLOC;
+	}
+
+	for (i = 0; i < it->num_parents; ++i)
+		sub->parents[i] = it->parents[i];
+
+	sub->parents[it->num_parents] = it->state.ent_ref;
+	sub->num_parents = it->num_parents + 1;
+	return 0;
 }
 
 static void it_ignore_subdir(sqfs_dir_iterator_t *it)
@@ -166,6 +197,7 @@ static void it_destroy(sqfs_object_t *obj)
 	sqfs_drop(it->rd);
 	sqfs_drop(it->data);
 	sqfs_drop(it->xattr);
+	free(it->parents);
 	sqfs_free(it);
 }
 
